@@ -1,0 +1,20 @@
+//go:build verif
+
+package apk
+
+import (
+	"archive/tar"
+	"context"
+	"io"
+)
+
+// Wrappers for the verification harness of property C15 (build tag verif
+// only). They add no behaviour.
+
+// VerifC15InstallAPKFiles exposes (*APK).installAPKFiles.
+func VerifC15InstallAPKFiles(ctx context.Context, a *APK, in io.Reader, pkg *Package) ([]tar.Header, error) {
+	return a.installAPKFiles(ctx, in, pkg)
+}
+
+// VerifC15ChecksumFromHeader exposes checksumFromHeader.
+func VerifC15ChecksumFromHeader(h *tar.Header) ([]byte, error) { return checksumFromHeader(h) }
